@@ -44,6 +44,9 @@ CONSTANTS
   MakeModes,  \* subset of BOOLEAN: make-service future gated by the environment
   MaxFaults,  \* bound on fault actions per behaviour
   AsBuiltD8,  \* TRUE: DuplexIncoming::poll_accept returns Err for a cancelled connect (pinned tree)
+  SigOnMake,  \* subset of 0..NConn: the make-service fires the signal on its k-th call (0 = never)
+  Hoisted,    \* TRUE: variant in which the signal is polled once per poll of the serving future instead of
+              \* before every poll_once (demonstration: TLC finds the accept after the signal)
   GenMode,    \* TRUE only in the generation configs (settle discipline + history)
   GenLen      \* environment steps per generated behaviour
 
@@ -58,6 +61,7 @@ VARIABLES
   acc,         \* "Preparing" | "Accepting" | "Making"          (State in src/server/mod.rs)
   making,      \* connection held by State::Making (0 = none)
   mk,          \* decision for the pending make-service future: "none" | "ok" | "fail"
+  burst,       \* (Hoisted only) the signal became ready inside the current poll, which has not returned yet
   sigFired,    \* the signal future is ready
   watchClosed, \* the shutdown watch receiver was dropped (send(), or the future was dropped)
   listener,    \* "up" | "lost"
@@ -68,8 +72,8 @@ VARIABLES
   oas,         \* history: connections with a live driver when the signal was processed
   mode, hist, nenv, plan  \* generation discipline (constant when ~GenMode)
 
-gvars == <<cfg, srv, cause, acc, making, mk, sigFired, watchClosed, listener, backlog, nfaults, srvAtSig, oas>>
-vars  == <<cfg, srv, cause, acc, making, mk, sigFired, watchClosed, listener, backlog, c, nfaults, srvAtSig, oas, mode, hist, nenv, plan>>
+gvars == <<cfg, burst, srv, cause, acc, making, mk, sigFired, watchClosed, listener, backlog, nfaults, srvAtSig, oas>>
+vars  == <<cfg, burst, srv, cause, acc, making, mk, sigFired, watchClosed, listener, backlog, c, nfaults, srvAtSig, oas, mode, hist, nenv, plan>>
 
 Live      == {"tls", "sniff", "h1", "h2"}
 InFlight  == {"started", "handler", "respHead", "respBody"}
@@ -88,7 +92,8 @@ InitConn == [cl     |-> "new",    \* "new"|"queued"|"cancelled"|"open"|"gone"|"r
              rq     |-> [k \in Req |-> InitReq]]
 
 Init ==
-  /\ cfg \in [proto : Protos, tls : TlsModes, makeGated : MakeModes]
+  /\ cfg \in [proto : Protos, tls : TlsModes, makeGated : MakeModes, sigOnMake : SigOnMake]
+  /\ burst = FALSE
   /\ srv = "running" /\ cause = "none" /\ acc = "Preparing" /\ making = 0 /\ mk = "none"
   /\ sigFired = FALSE /\ watchClosed = FALSE /\ listener = "up" /\ backlog = <<>>
   /\ c = [i \in Conn |-> InitConn]
@@ -141,7 +146,7 @@ Connect(i, kind, plain) ==
      ELSE /\ c' = [c EXCEPT ![i].cl = "refused", ![i].kind = kind, ![i].plain = plain, ![i].behave = ~plain]
           /\ UNCHANGED backlog
   /\ nfaults' = IF plain THEN nfaults + 1 ELSE nfaults
-  /\ UNCHANGED <<cfg, srv, cause, acc, making, mk, sigFired, watchClosed, listener, srvAtSig, oas>>
+  /\ UNCHANGED <<cfg, burst, srv, cause, acc, making, mk, sigFired, watchClosed, listener, srvAtSig, oas>>
   /\ Env(Rec("Connect", i, 0, IF plain THEN "raw" ELSE kind, TRUE))
 
 \* FAULT: the connect future is dropped after the request was queued and before it is accepted
@@ -149,8 +154,27 @@ CancelConnect(i) ==
   /\ c[i].cl = "queued" /\ nfaults < MaxFaults
   /\ c' = [c EXCEPT ![i].cl = "cancelled", ![i].behave = FALSE]
   /\ nfaults' = nfaults + 1
-  /\ UNCHANGED <<cfg, srv, cause, acc, making, mk, sigFired, watchClosed, listener, backlog, srvAtSig, oas>>
+  /\ UNCHANGED <<cfg, burst, srv, cause, acc, making, mk, sigFired, watchClosed, listener, backlog, srvAtSig, oas>>
   /\ Env(Rec("CancelConnect", i, 0, "", TRUE))
+
+\* FAULT (socket listeners): the client completes the connection and resets it while it still sits in the
+\* listen backlog; the kernel hands the dead connection to accept() all the same (tcp-reset-in-backlog)
+AbortQueued(i) ==
+  /\ ~GenMode /\ c[i].cl = "queued" /\ nfaults < MaxFaults
+  /\ c' = [c EXCEPT ![i].cl = "gone", ![i].behave = FALSE]
+  /\ nfaults' = nfaults + 1
+  /\ UNCHANGED <<cfg, burst, srv, cause, acc, making, mk, sigFired, watchClosed, listener, backlog, srvAtSig, oas>>
+  /\ Env(Rec("AbortQueued", i, 0, "", TRUE))
+
+\* FAULT (auto protocol): the client sends a strict non-empty prefix of the HTTP/2 preface and nothing else;
+\* ReadVersion keeps waiting for the rest (the connection stays in "sniff") until the client goes away
+Prefix(i) ==
+  /\ ClientSeesOpen(i) /\ c[i].behave /\ ~c[i].plain /\ c[i].kind = "h1" /\ cfg.proto = "auto"
+  /\ c[i].rq[1].sent = 0 /\ nfaults < MaxFaults
+  /\ c' = [c EXCEPT ![i].behave = FALSE]
+  /\ nfaults' = nfaults + 1
+  /\ UNCHANGED <<cfg, burst, srv, cause, acc, making, mk, sigFired, watchClosed, listener, backlog, srvAtSig, oas>>
+  /\ Env(Rec("Prefix", i, 14, "", TRUE))
 
 \* a well-behaved client sends the next part of request k: head in two parts (H1, H2), then the body (B;
 \* the harness splits it again into B1 B2, which the server side cannot tell apart from B: the handler
@@ -170,19 +194,19 @@ Disconnect(i) ==
   /\ c[i].cl = "open" /\ nfaults < MaxFaults
   /\ c' = [c EXCEPT ![i].cl = "gone", ![i].behave = FALSE]
   /\ nfaults' = nfaults + 1
-  /\ UNCHANGED <<cfg, srv, cause, acc, making, mk, sigFired, watchClosed, listener, backlog, srvAtSig, oas>>
+  /\ UNCHANGED <<cfg, burst, srv, cause, acc, making, mk, sigFired, watchClosed, listener, backlog, srvAtSig, oas>>
   /\ Env(Rec("Disconnect", i, 0, "", TRUE))
 Trunc(i) ==
   /\ ClientSeesOpen(i) /\ c[i].kind = "h1" /\ ~c[i].half /\ nfaults < MaxFaults
   /\ c' = [c EXCEPT ![i].half = TRUE, ![i].behave = FALSE]
   /\ nfaults' = nfaults + 1
-  /\ UNCHANGED <<cfg, srv, cause, acc, making, mk, sigFired, watchClosed, listener, backlog, srvAtSig, oas>>
+  /\ UNCHANGED <<cfg, burst, srv, cause, acc, making, mk, sigFired, watchClosed, listener, backlog, srvAtSig, oas>>
   /\ Env(Rec("Trunc", i, 0, "", TRUE))
 Garbage(i) ==
   /\ ClientSeesOpen(i) /\ c[i].kind = "h1" /\ ~c[i].junk /\ ~c[i].half /\ nfaults < MaxFaults
   /\ c' = [c EXCEPT ![i].junk = TRUE, ![i].behave = FALSE]
   /\ nfaults' = nfaults + 1
-  /\ UNCHANGED <<cfg, srv, cause, acc, making, mk, sigFired, watchClosed, listener, backlog, srvAtSig, oas>>
+  /\ UNCHANGED <<cfg, burst, srv, cause, acc, making, mk, sigFired, watchClosed, listener, backlog, srvAtSig, oas>>
   /\ Env(Rec("Garbage", i, 0, "", TRUE))
 
 \* the schedule lets the handler of request k return (ok), or makes it fail (FAULT).  The handler of the
@@ -198,7 +222,7 @@ Gate(i, k, ok) ==
      ELSE c' = [c EXCEPT ![i].rq[k].gate = "err", ![i].rq[k].st = "failed", ![i].herr = TRUE,
                          ![i].sc = IF c[i].sc = "h1" THEN "closed" ELSE @]
   /\ nfaults' = IF ok THEN nfaults ELSE nfaults + 1
-  /\ UNCHANGED <<cfg, srv, cause, acc, making, mk, sigFired, watchClosed, listener, backlog, srvAtSig, oas>>
+  /\ UNCHANGED <<cfg, burst, srv, cause, acc, making, mk, sigFired, watchClosed, listener, backlog, srvAtSig, oas>>
   /\ Env(Rec("Gate", i, k, "", ok))
 \* the schedule releases the next chunk of the response body (two chunks); hyper writes it at once; after
 \* the last one an HTTP/1 connection whose keep-alive was disabled by graceful_shutdown closes
@@ -213,20 +237,20 @@ Chunk(i, k) ==
 Signal ==
   /\ ~sigFired
   /\ sigFired' = TRUE /\ srvAtSig' = srv
-  /\ UNCHANGED <<cfg, srv, cause, acc, making, mk, watchClosed, listener, backlog, c, nfaults, oas>>
+  /\ UNCHANGED <<cfg, burst, srv, cause, acc, making, mk, watchClosed, listener, backlog, c, nfaults, oas>>
   /\ Env(Rec("Signal", 0, 0, "", TRUE))
 
 \* the listener itself is lost (every handle of the duplex pair dropped): a legitimate end
 ListenerLost ==
   /\ listener = "up" /\ \A i \in Conn : c[i].cl # "queued"
   /\ listener' = "lost"
-  /\ UNCHANGED <<cfg, srv, cause, acc, making, mk, sigFired, watchClosed, backlog, c, nfaults, srvAtSig, oas>>
+  /\ UNCHANGED <<cfg, burst, srv, cause, acc, making, mk, sigFired, watchClosed, backlog, c, nfaults, srvAtSig, oas>>
   /\ Env(Rec("ListenerLost", 0, 0, "", TRUE))
 
 MakeOpen(ok) ==
   /\ cfg.makeGated /\ acc = "Making" /\ mk = "none" /\ srv = "running"
   /\ mk' = IF ok THEN "ok" ELSE "fail"
-  /\ UNCHANGED <<cfg, srv, cause, acc, making, sigFired, watchClosed, listener, backlog, c, nfaults, srvAtSig, oas>>
+  /\ UNCHANGED <<cfg, burst, srv, cause, acc, making, sigFired, watchClosed, listener, backlog, c, nfaults, srvAtSig, oas>>
   /\ Env(Rec("MakeOpen", 0, 0, "", ok))
 
 -----------------------------------------------------------------------------
@@ -246,46 +270,71 @@ ServerEnds(res, why) ==
                  r2 == IF r1.sc = "making" THEN [r1 EXCEPT !.sc = "dropped"] ELSE r1
              IN IF why = "signal" THEN [r2 EXCEPT !.rq = [k \in Req |-> [r2.rq[k] EXCEPT !.sas = (r2.sc \in Live /\ r2.rq[k].st \in InFlight)]]] ELSE r2]
 
+\* In the Hoisted variant the signal is only looked at when a poll of the future starts: a poll in which
+\* the signal became ready (burst) runs on until the acceptor or the make-service returns Pending.
+MayGoOn == ~sigFired \/ (Hoisted /\ burst)
+
 PollSignal ==
-  /\ srv = "running" /\ sigFired
+  /\ srv = "running" /\ sigFired /\ ~burst
   /\ ServerEnds("ok", "signal")
-  /\ UNCHANGED <<cfg, acc, sigFired, listener, nfaults, srvAtSig>>
+  /\ UNCHANGED <<cfg, burst, acc, sigFired, listener, nfaults, srvAtSig>>
   /\ Int
+
+\* (Hoisted only) the poll in which the signal became ready returns Pending: nothing left to accept, or
+\* the make-service future is pending
+BurstEnds ==
+  /\ Hoisted /\ burst /\ srv = "running"
+  /\ \/ (acc \in {"Preparing", "Accepting"} /\ backlog = <<>> /\ listener = "up")
+     \/ (acc = "Making" /\ mk = "none")
+  /\ burst' = FALSE
+  /\ UNCHANGED <<cfg, srv, cause, acc, making, mk, sigFired, watchClosed, listener, backlog, c, nfaults, srvAtSig, oas>>
+  /\ Int
+
+\* number of streams the acceptor has handed out so far = number of make-service calls
+NAccepted == Cardinality({j \in Conn : c[j].sc # "none"})
+\* "serve k connections, then stop": the make-service call for the k-th accepted stream makes the signal
+\* ready, INSIDE the poll of the serving future, between two accepts of a burst (SignalFromMake)
+FiresOnThisMake == cfg.sigOnMake # 0 /\ ~sigFired /\ NAccepted + 1 = cfg.sigOnMake
 
 \* Accept: `Accept => ~sigFired` is the first clause of C07
 Accept ==
-  /\ srv = "running" /\ ~sigFired /\ acc \in {"Preparing", "Accepting"}   \* Preparing: poll_ready_ref is ready at once
+  /\ srv = "running" /\ MayGoOn /\ acc \in {"Preparing", "Accepting"}   \* Preparing: poll_ready_ref is ready at once
   /\ IF backlog # <<>>
      THEN LET i == Head(backlog) IN
           IF c[i].cl = "cancelled"
           THEN IF AsBuiltD8
                THEN \* request.ack() fails, `?` turns it into an accept error: the server ends (defect D8)
-                    /\ ServerEnds("errAccept", "cancelledConnect") /\ UNCHANGED <<cfg, acc, sigFired, listener, nfaults, srvAtSig>>
+                    /\ ServerEnds("errAccept", "cancelledConnect") /\ UNCHANGED <<cfg, burst, acc, sigFired, listener, nfaults, srvAtSig>>
                ELSE \* dead request skipped
                     /\ backlog' = Tail(backlog)
-                    /\ UNCHANGED <<cfg, srv, cause, acc, making, mk, sigFired, watchClosed, listener, c, nfaults, srvAtSig, oas>>
-          ELSE IF cfg.makeGated
-               THEN \* State::Making: the make-service future is pending, nothing else is accepted meanwhile
-                    /\ backlog' = Tail(backlog) /\ making' = i /\ acc' = "Making" /\ mk' = "none"
-                    /\ c' = [c EXCEPT ![i].cl = "open", ![i].sc = "making"]
-                    /\ UNCHANGED <<cfg, srv, cause, sigFired, watchClosed, listener, nfaults, srvAtSig, oas>>
-               ELSE \* make future ready in the same poll: driver spawned, back to Preparing
-                    /\ backlog' = Tail(backlog) /\ acc' = "Preparing"
-                    /\ c' = [c EXCEPT ![i].cl = "open", ![i].sc = FirstStage]
-                    /\ UNCHANGED <<cfg, srv, cause, making, mk, sigFired, watchClosed, listener, nfaults, srvAtSig, oas>>
+                    /\ UNCHANGED <<cfg, burst, srv, cause, acc, making, mk, sigFired, watchClosed, listener, c, nfaults, srvAtSig, oas>>
+          ELSE \* a stream is handed out (also for a client that reset while queued at a socket listener: the
+               \* kernel hands it out all the same) and the make-service is called, which may fire the signal
+               /\ backlog' = Tail(backlog)
+               /\ sigFired' = (sigFired \/ FiresOnThisMake)
+               /\ srvAtSig' = IF FiresOnThisMake THEN "running" ELSE srvAtSig
+               /\ burst' = (burst \/ (Hoisted /\ FiresOnThisMake))
+               /\ IF cfg.makeGated
+                  THEN \* State::Making: the make-service future is pending, nothing else is accepted meanwhile
+                       /\ making' = i /\ acc' = "Making" /\ mk' = "none"
+                       /\ c' = [c EXCEPT ![i].cl = IF @ = "gone" THEN "gone" ELSE "open", ![i].sc = "making"]
+                  ELSE \* make future ready in the same poll: driver spawned, back to Preparing
+                       /\ acc' = "Preparing" /\ UNCHANGED <<making, mk>>
+                       /\ c' = [c EXCEPT ![i].cl = IF @ = "gone" THEN "gone" ELSE "open", ![i].sc = FirstStage]
+               /\ UNCHANGED <<cfg, srv, cause, watchClosed, listener, nfaults, oas>>
      ELSE /\ listener = "lost"
-          /\ ServerEnds("errAccept", "listener") /\ UNCHANGED <<cfg, acc, sigFired, listener, nfaults, srvAtSig>>
+          /\ ServerEnds("errAccept", "listener") /\ UNCHANGED <<cfg, burst, acc, sigFired, listener, nfaults, srvAtSig>>
   /\ Int
 
 \* the make-service future resolves: Ok => the connection is handed to the executor (one driver task
 \* per connection), state back to Preparing; Err => the serving future ends
 Make ==
-  /\ srv = "running" /\ ~sigFired /\ acc = "Making" /\ mk # "none"
+  /\ srv = "running" /\ MayGoOn /\ acc = "Making" /\ mk # "none"
   /\ IF mk = "ok"
      THEN /\ c' = [c EXCEPT ![making].sc = FirstStage]
           /\ acc' = "Preparing" /\ making' = 0 /\ mk' = "none"
-          /\ UNCHANGED <<cfg, srv, cause, sigFired, watchClosed, listener, backlog, nfaults, srvAtSig, oas>>
-     ELSE /\ ServerEnds("errMake", "make") /\ UNCHANGED <<cfg, acc, sigFired, listener, nfaults, srvAtSig>>
+          /\ UNCHANGED <<cfg, burst, srv, cause, sigFired, watchClosed, listener, backlog, nfaults, srvAtSig, oas>>
+     ELSE /\ ServerEnds("errMake", "make") /\ UNCHANGED <<cfg, burst, acc, sigFired, listener, nfaults, srvAtSig>>
   /\ Int
 
 -----------------------------------------------------------------------------
@@ -363,24 +412,24 @@ H2Close(i) ==
   /\ Int
 
 Internal ==
-  \/ PollSignal \/ Accept \/ Make
+  \/ PollSignal \/ BurstEnds \/ Accept \/ Make
   \/ \E i \in Conn : DriverTold(i) \/ TlsStep(i) \/ Sniff(i) \/ ConnFails(i) \/ H2Close(i)
   \/ \E i \in Conn, k \in Req : ReqStep(i, k)
 
-Fault(i) == CancelConnect(i) \/ Disconnect(i) \/ Trunc(i) \/ Garbage(i)
+Fault(i) == CancelConnect(i) \/ Disconnect(i) \/ Trunc(i) \/ Garbage(i) \/ AbortQueued(i) \/ Prefix(i)
             \/ (\E k \in Req : Gate(i, k, FALSE)) \/ (\E kind \in ClientKinds : Connect(i, kind, TRUE))
 
 Environment ==
   \/ Signal \/ ListenerLost \/ (\E ok \in BOOLEAN : MakeOpen(ok))
   \/ \E i \in Conn : \/ \E kind \in ClientKinds, plain \in BOOLEAN : Connect(i, kind, plain)
-                     \/ CancelConnect(i) \/ Disconnect(i) \/ Trunc(i) \/ Garbage(i)
+                     \/ CancelConnect(i) \/ Disconnect(i) \/ Trunc(i) \/ Garbage(i) \/ AbortQueued(i) \/ Prefix(i)
                      \/ \E k \in Req : Send(i, k) \/ Chunk(i, k) \/ (\E ok \in BOOLEAN : Gate(i, k, ok))
 
 \* generation only: the system has run to quiescence, the expected observation is recorded
 Settled ==
   /\ GenMode /\ mode = "settle" /\ ~ENABLED Internal
   /\ mode' = "env" /\ hist' = Append(hist, [a |-> "Obs", exp |-> Abstract])
-  /\ UNCHANGED <<cfg, srv, cause, acc, making, mk, sigFired, watchClosed, listener, backlog, c, nfaults, srvAtSig, oas, nenv, plan>>
+  /\ UNCHANGED <<cfg, burst, srv, cause, acc, making, mk, sigFired, watchClosed, listener, backlog, c, nfaults, srvAtSig, oas, nenv, plan>>
 
 Next == Environment \/ Internal \/ Settled
 
@@ -396,7 +445,7 @@ Good(i) == c[i].behave /\ ~c[i].herr /\ \A k \in Req : c[i].rq[k].gate # "err"
 
 \* ---- C07
 \* (1) no Accept after the signal: as an action property
-C07_NoAcceptAfterSignal == [][Accept => ~sigFired]_vars
+C07_NoAcceptAfterSignal == [][Accept => ~sigFired]_vars     \* also when the signal became ready inside a burst
 \* (2) the serving future returns Ok on the signal (and only then)
 C07_OkIffSignal   == (srv = "ok") => (sigFired /\ cause = "signal")
 C07_SignalReturns == sigFired ~> (srv # "running")
